@@ -712,6 +712,7 @@ Proof.
       * eapply nodup_fresh_app; eassumption.
       * intros t. rewrite in_app_iff. simpl. tauto.
       * rewrite app_length, seq_length. fold sz. nia.
+      * nia.
       * fold sz. rewrite app_length, seq_length, skipn_length. rewrite app_length, seq_length in LJ. lia.
     + do 4 eexists. split; [reflexivity|]. apply LO.
       rewrite app_length, seq_length. assumption.
